@@ -190,7 +190,7 @@ Section WithKnot.
                 let* body :=
                   if kind_is sk_BlockExpr body_node then
                     let* stmts := lower_block_statements K body_node in
-                    Ok (match into_then_expr stmts with Some e => e | None => error_without_span end)
+                    Ok (match into_then_expr stmts with Some e => e | None => unit_without_span end)
                   else k_expr K body_node in
                 Ok (Some (PFnDefinition v name params (location_from_span params_span) return_type body))
             end
